@@ -52,6 +52,7 @@ func init() {
 			}})
 		}
 		scns = append(scns, c01Concurrent(tier)...)
+		scns = append(scns, c01Borrowed(tier)...)
 		return scns
 	}
 
@@ -89,6 +90,7 @@ func init() {
 		}
 		scns = append(scns, c03Races(tier)...)
 		scns = append(scns, c03MultiSourcePanics()...)
+		scns = append(scns, c03HigherOrderAsyncOuter()...)
 		return scns
 	}
 
